@@ -151,6 +151,8 @@ def check(ctx: Ctx) -> None:
     check_escaping_not_mutated(ctx, 'C14.f', [c.name for c in ctx.model.module(FG).classes.values()], floor=2)
     from ..idioms import check_block_loops_cover
     check_block_loops_cover(ctx, 'C14.g', [FG, 'pyphysim/channels/fading.py'], floor=3)
+    from ..idioms import check_no_tolerance_fast_paths
+    check_no_tolerance_fast_paths(ctx, 'C14.h', [FG], floor=10)
     # ------------------------------------------------------------------ C14.c
     ctx.rule('C14.c', 'DSF: per-ray phases follow the configured shape', floor=10)
     analyse_class(ctx, 'C14.c', JAKES, 'JakesSampleGenerator')
